@@ -12,8 +12,8 @@
              field) ++ padding ++ payload ++ anything (index padding, index, ...)  (CARv2).
    [blocks_ok]: well-formed CIDs, sections within MaxAllowedSectionSize; [hashes_ok hok]: every block
    hashes to its CID; [cids_indexable]: CIDs of at most 2048 bytes (MaxIndexCidSize); sizes < 2^63. *)
-From GoCar Require Import Bytes Varint Cid Header Frame V2Header Scan Index Store CliCmds.
-From GoCarProofs Require Import StoreInv CliBase CliWalk CliProducers CliConcat CliFilter CliClosure CliTheorems CliGet CliAppend CliIndexFacts CliFull CliCidList CliExamples.
+From GoCar Require Import Bytes Varint Cid Header Frame V2Header Scan Index Store Traversal CliCmds.
+From GoCarProofs Require Import StoreInv CliBase CliWalk CliProducers CliConcat CliFilter CliClosure CliTheorems CliGet CliAppend CliIndexFacts CliFull CliCidList CliGetDag CliExamples.
 From GoCarProofs Require FinalIndex.
 
 (* ---- car list / car root ------------------------------------------------------------------------------ *)
@@ -607,6 +607,105 @@ Theorem C19_inspect_quick_carv2_indexed :
                roots (map isec_of bs) codec (blen (payload_hb hb bs))).
 Proof. exact inspect_quick_v2_indexed. Qed.
 Print Assumptions C19_inspect_quick_carv2_indexed.
+
+(* ---- car get-dag ----------------------------------------------------------------------------------------------------- *)
+(* The traversal library is an oracle: [loads] is ANY sequence of blocks it may open for the request
+   (root first, repeats included), [ok] whether the walk returned nil.  [opens file r]: the read-only
+   blockstore opens on the input (C19_get_dag_input_opens: every CARv1 / index-less CARv2 does).
+   --version 1 writes the CARv1 of the root and the FIRST OCCURRENCE of every loaded CID in load order. *)
+Theorem C19_get_dag_v1 :
+  forall (_ : bytes -> bytes -> option bool) hdrdec, hdrdec pragma_body = Some ([], 2) ->
+  forall file r rc loads ok outf, opens hdrdec file r ->
+    get_dag hdrdec 1 (Some rc) loads ok file outf
+    = (ok, Some (payload_hb (enc_header (Some [rc]) 1) (first_occ loads))).
+Proof. exact get_dag_v1. Qed.
+Print Assumptions C19_get_dag_v1.
+
+(* --version 2 writes, byte for byte, the CARv2 (pragma, header, payload, car-multihash-index-sorted index)
+   of the root and the first occurrence of every loaded MULTIHASH, identity blocks dropped *)
+Theorem C19_get_dag_v2 :
+  forall (_ : bytes -> bytes -> option bool) hdrdec, hdrdec pragma_body = Some ([], 2) ->
+  forall file r rc loads outf, opens hdrdec file r ->
+    Forall (blk_ok default_maxs) loads -> cids_indexable loads ->
+    51 + blen (payload_hb (dag_hb rc) (dedup_blocks loads)) < two64 ->
+    get_dag hdrdec 2 (Some rc) loads true file outf
+    = (true, Some (v2file 0 0 0 (51 + blen (payload_hb (dag_hb rc) (dedup_blocks loads)))
+                          (payload_hb (dag_hb rc) (dedup_blocks loads))
+                          (idx_write (filter_index (dag_hb rc) (dedup_blocks loads))))).
+Proof. exact get_dag_v2. Qed.
+Print Assumptions C19_get_dag_v2.
+
+(* error branch: a failed walk leaves the output unfinalized and exits 1 *)
+Theorem C19_get_dag_v2_failed_walk :
+  forall (_ : bytes -> bytes -> option bool) hdrdec, hdrdec pragma_body = Some ([], 2) ->
+  forall file r rc loads outf, opens hdrdec file r ->
+    Forall (blk_ok default_maxs) loads -> cids_indexable loads ->
+    get_dag hdrdec 2 (Some rc) loads false file outf
+    = (false, Some (pragma ++ zerosN 40 ++ payload_hb (dag_hb rc) (dedup_blocks loads))).
+Proof. exact get_dag_v2_failed_walk. Qed.
+Print Assumptions C19_get_dag_v2_failed_walk.
+
+(* v1 and v2 hold the same blocks in the same order unless the walk loads identity CIDs or two CIDs
+   with one multihash *)
+Theorem C19_get_dag_versions_agree :
+  forall loads, mh_identifies (map fst loads) -> first_occ loads = dedup_blocks loads.
+Proof. exact first_occ_eq_dedup. Qed.
+Print Assumptions C19_get_dag_versions_agree.
+
+(* the root argument: optional when the archive has exactly one root *)
+Theorem C19_get_dag_root_from_archive :
+  forall (_ : bytes -> bytes -> option bool) hdrdec, hdrdec pragma_body = Some ([], 2) ->
+  forall ver file r rc loads ok outf, opens hdrdec file r ->
+    reader_roots hdrdec r file = Ok [rc] ->
+    get_dag hdrdec ver None loads ok file outf = get_dag hdrdec ver (Some rc) loads ok file outf.
+Proof. exact get_dag_root_from_archive. Qed.
+Print Assumptions C19_get_dag_root_from_archive.
+
+Theorem C19_get_dag_needs_exactly_one_root :
+  forall (_ : bytes -> bytes -> option bool) hdrdec, hdrdec pragma_body = Some ([], 2) ->
+  forall ver file r roots loads ok outf, opens hdrdec file r ->
+    reader_roots hdrdec r file = Ok roots -> length roots <> 1%nat ->
+    get_dag hdrdec ver None loads ok file outf = (false, outf).
+Proof. exact get_dag_needs_one_root. Qed.
+Print Assumptions C19_get_dag_needs_exactly_one_root.
+
+Theorem C19_get_dag_input_opens :
+  forall (_ : bytes -> bytes -> option bool) hdrdec, hdrdec pragma_body = Some ([], 2) ->
+  forall hb roots bs file,
+    hdr_ok hdrdec hb roots -> blocks_ok bs -> cids_indexable bs -> no_index_input hb bs file ->
+    exists r, opens hdrdec file r /\ reader_roots hdrdec r file = Ok roots.
+Proof. exact opens_no_index. Qed.
+Print Assumptions C19_get_dag_input_opens.
+
+(* closure: both outputs read back as stated and pass inspect --full and verify (the root being among
+   the blocks; for --version 2 fewer than 2^31 blocks, the int32 hash-code count of index.Marshal) *)
+Theorem C19_get_dag_v1_closed :
+  forall hok hdrdec, hdrdec pragma_body = Some ([], 2) ->
+  forall file r rc loads outf,
+    opens hdrdec file r -> blocks_ok loads -> hashes_ok hok loads -> hdr_ok hdrdec (dag_hb rc) [rc] ->
+    let out := payload_hb (dag_hb rc) (first_occ loads) in
+    get_dag hdrdec 1 (Some rc) loads true file outf = (true, Some out) /\
+    br_read_all hok hdrdec default_ropts out = Ok (1, [rc], mkscan (first_occ loads) EEof) /\
+    (exists st, inspect_car hok hdrdec true out = Ok st /\ is_count st = N.of_nat (length (first_occ loads))) /\
+    (roots_present [rc] (first_occ loads) = true -> verify_car hok hdrdec out = Ok tt).
+Proof. exact get_dag_v1_closed. Qed.
+Print Assumptions C19_get_dag_v1_closed.
+
+Theorem C19_get_dag_v2_closed :
+  forall hok hdrdec, hdrdec pragma_body = Some ([], 2) ->
+  forall file r rc loads outf,
+    opens hdrdec file r -> blocks_ok loads -> hashes_ok hok loads -> hdr_ok hdrdec (dag_hb rc) [rc] ->
+    cids_indexable loads ->
+    let kept := dedup_blocks loads in
+    let P := payload_hb (dag_hb rc) kept in
+    let out := v2file 0 0 0 (51 + blen P) P (idx_write (filter_index (dag_hb rc) kept)) in
+    51 + blen P + blen (idx_write (filter_index (dag_hb rc) kept)) < two63 ->
+    get_dag hdrdec 2 (Some rc) loads true file outf = (true, Some out) /\
+    br_read_all hok hdrdec default_ropts out = Ok (2, [rc], mkscan kept EEof) /\
+    (exists st, inspect_car hok hdrdec true out = Ok st /\ is_count st = N.of_nat (length kept)) /\
+    (roots_present [rc] kept = true -> N.of_nat (length kept) < two31 -> verify_car hok hdrdec out = Ok tt).
+Proof. exact get_dag_v2_closed. Qed.
+Print Assumptions C19_get_dag_v2_closed.
 
 (* ---- car concat ------------------------------------------------------------------------------------------------------ *)
 (* C19_concat_blocks (partial: executable guard ver <> 2) with its closure: for inputs that each
